@@ -10,6 +10,7 @@ import (
 	"fmt"
 	"os"
 	"os/exec"
+	"sort"
 	"strings"
 
 	"github.com/free5gc/go-upf/internal/verif/evid"
@@ -137,6 +138,148 @@ func RunC18(tier string) {
 	run.Set("bound", "scaled instances: virtual capacities of the periodic server's event queue and the report queue overridden to 1..3 (source constants untouched), 2..4 sessions x 1..2 periodic URRs, bulk = re-association / N deletions / N establishments, 1..2 ticks, optional kernel report batch and heartbeat; preemption bound per scenario as listed (iterated from 0); state-key pruning on")
 	run.Assumption("vsched reproduces Go channel semantics (self-tests against known outcome sets and real goroutines run before every exploration); the rewriter is total on the constructs of the two packages (inventory in the evidence)")
 	run.Assumption("the simulated kernel answers netlink requests immediately (data-plane call latency is not a dimension of the scaled instances)")
+	if sch < 2 {
+		evid.Infra("vacuous exploration")
+	}
+	run.Finish()
+}
+
+func raceWorker() string {
+	p := fmt.Sprintf("%s/worker-race.run.%s", os.Getenv("VERIF_BUILD"), os.Getenv("VERIF_RUNID"))
+	if _, err := os.Stat(p); err != nil {
+		p = os.Getenv("VERIF_BUILD") + "/worker-race"
+	}
+	return p
+}
+
+// RaceReport is one distinct data race of the free-running pass.
+type RaceReport struct {
+	Sig   string
+	Text  string
+	Count int
+}
+
+// implFrame: first frame of a race-report stack that belongs to the implementation (not the harness, not runtime).
+func implFrame(lines []string) string {
+	for i := 0; i+1 < len(lines); i += 2 {
+		fn := strings.TrimSpace(lines[i])
+		file := strings.TrimSpace(lines[i+1])
+		if !strings.Contains(fn, "github.com/free5gc/go-upf/") {
+			continue
+		}
+		if strings.Contains(file, "zz_verif") || strings.Contains(fn, "/internal/verif/") || strings.Contains(fn, "cmd/verif-worker") {
+			continue
+		}
+		fn = strings.TrimSuffix(fn, "()")
+		return fn[strings.LastIndex(fn, "/")+1:]
+	}
+	return "(outside the implementation)"
+}
+
+// ParseRaces splits the race detector's output into distinct races keyed by the implementation functions of the
+// two conflicting accesses.
+func ParseRaces(out string) []RaceReport {
+	m := map[string]*RaceReport{}
+	var order []string
+	for _, blk := range strings.Split(out, "==================") {
+		if !strings.Contains(blk, "WARNING: DATA RACE") {
+			continue
+		}
+		var accs []string
+		lines := strings.Split(blk, "\n")
+		for i := 0; i < len(lines); i++ {
+			l := lines[i]
+			if (strings.Contains(l, " at 0x") && strings.Contains(l, " by ")) && !strings.HasPrefix(strings.TrimSpace(l), "Goroutine") {
+				kind := strings.ToLower(strings.Fields(strings.TrimPrefix(strings.TrimSpace(l), "Previous "))[0])
+				var st []string
+				for j := i + 1; j < len(lines) && strings.TrimSpace(lines[j]) != ""; j++ {
+					st = append(st, lines[j])
+				}
+				accs = append(accs, kind+" in "+implFrame(st))
+			}
+		}
+		sort.Strings(accs)
+		sig := "race:" + strings.Join(accs, " / ")
+		if m[sig] == nil {
+			m[sig] = &RaceReport{Sig: sig, Text: strings.TrimSpace(blk)}
+			order = append(order, sig)
+		}
+		m[sig].Count++
+	}
+	var res []RaceReport
+	for _, s := range order {
+		res = append(res, *m[s])
+	}
+	return res
+}
+
+// racePass runs the free-running -race complement: procs processes x iters iterations each.
+func racePass(procs, iters int) (races []RaceReport, crashes []string, ran int) {
+	type res struct {
+		out string
+		err error
+	}
+	ch := make(chan res, procs)
+	for p := 0; p < procs; p++ {
+		go func(p int) {
+			cmd := exec.Command(raceWorker(), "racepass", fmt.Sprint(iters), fmt.Sprint(1000+p))
+			cmd.Env = append(os.Environ(), "GORACE=halt_on_error=0 exitcode=0")
+			b, err := cmd.CombinedOutput()
+			ch <- res{string(b), err}
+		}(p)
+	}
+	all := ""
+	for p := 0; p < procs; p++ {
+		r := <-ch
+		all += r.out
+		if strings.Contains(r.out, "RACEPASS iterations=") {
+			ran += iters
+		} else {
+			tail := r.out
+			if len(tail) > 1500 {
+				tail = tail[len(tail)-1500:]
+			}
+			crashes = append(crashes, fmt.Sprintf("%v: %s", r.err, tail))
+		}
+	}
+	return ParseRaces(all), crashes, ran
+}
+
+// RunC17 is the check entry point of C17.
+func RunC17(tier string) {
+	run := evid.NewRun("C17", tier)
+	rep := Exec("C17", tier)
+	sch, pts, out, exh, smp := Apply(run, rep, "C17", nil)
+	run.Set("states", sch)
+	run.Set("transitions", pts)
+	run.Set("traces_validated_against_impl", sch)
+	run.Set("schedules", sch)
+	run.Set("distinct_outcomes", out)
+	run.Set("exhaustive", exh)
+	run.Set("samples", smp)
+	run.Set("explanation", "states = complete schedules executed, transitions = scheduling points taken; every schedule is an execution of the real code under the cooperative scheduler, so traces_validated_against_impl = schedules. Decided here: exactly-once processing of every notification and timeout, no panic, no deadlock, and complete termination (no goroutine left, no timer armed) after Stop placed at every scheduling point within the preemption bound.")
+	run.Set("bound", "2-3 peers x 1-3 requests with duplicates, 1-3 report producers, transaction timers fired by the scheduler (fire budget 1-3), Stop as a thread of its own; preemption bound per scenario as listed (iterated from 0); state-key pruning on")
+	run.Assumption("confinement argument: under the scheduler every shared-memory access of the two rewritten packages happens between two scheduling points of one thread; data races proper (unsynchronised accesses the scheduler cannot see) are looked for by the separate free-running -race pass below, which samples schedules and decides nothing")
+	procs, iters := 4, 25
+	if tier == "thorough" {
+		procs, iters = 12, 150
+	}
+	races, crashes, ran := racePass(procs, iters)
+	var sigs []string
+	for _, r := range races {
+		sigs = append(sigs, fmt.Sprintf("%s (x%d)", r.Sig, r.Count))
+		run.Report(evid.Violation{Signature: "C17:" + r.Sig, Engine: "race-pass (free-running, go build -race; complement, not model checking)", Scenario: "racepass",
+			What: "the race detector reports unsynchronised conflicting accesses: " + r.Sig, Replay: map[string]interface{}{"report": r.Text}})
+	}
+	for _, c := range crashes {
+		if strings.Contains(c, "send on closed channel") {
+			// the shutdown panic E3 finds systematically; here it only ends one sampling process early
+			continue
+		}
+		evid.Infra("race-pass worker failed: %s", c)
+	}
+	run.Set("race_pass", map[string]interface{}{"role": "complement: free-running goroutines under the race detector on the unrewritten code; sampled, decides nothing",
+		"processes": procs, "iterations_completed": ran, "distinct_races": sigs, "processes_ended_early": len(crashes)})
 	if sch < 2 {
 		evid.Infra("vacuous exploration")
 	}
